@@ -123,9 +123,35 @@ Definition R (x:sim) : Prop := reach (ms x).
 Lemma R_stp l x : R x -> R (stp l x). Proof. unfold R, stp. cbn [ms set_ms]. apply reach_step. Qed.
 Lemma R_os_put x f v : R x -> R (os_put x f v). Proof. exact (fun H => H). Qed.
 
+Lemma R_set_comp x c i n : R x -> R (set_comp x c i n). Proof. exact (fun H => H). Qed.
+Lemma R_set_olog x v : R x -> R (set_olog x v). Proof. exact (fun H => H). Qed.
+Lemma R_set_cprog x v : R x -> R (set_cprog x v). Proof. exact (fun H => H). Qed.
+Lemma R_try_io x b f w : R x -> R (snd (try_io x b f w)).
+Proof.
+  intros H. unfold try_io. cbv zeta. destruct (closedA (os_get x f)); [exact H|]. destruct b.
+  - destruct (inq (os_get x f)); [apply R_os_put; exact H|]. destruct (hup (os_get x f)); exact H.
+  - destruct (hup (os_get x f)); [exact H|]. destruct (full (os_get x f)); exact H.
+Qed.
+Lemma R_comp_wait k b f al x : R x -> R (comp_wait k b f al x).
+Proof. intros H. unfold comp_wait. cbv zeta. apply R_stp, R_set_comp. exact H. Qed.
+Lemma R_xfer_step k b f al x : R x -> R (snd (xfer_step k b f al x)).
+Proof.
+  intros H. unfold xfer_step. destruct al.
+  - destruct (prog_of x k) as [need cnt]. pose proof (R_try_io x b f need H) as T. destruct (try_io x b f need) as [r x1]. cbn [snd] in T.
+    destruct r as [[c got]|]; [|exact T]. destruct c; [|exact T].
+    destruct (N.eqb (need - got) 0); cbn [snd]; apply R_set_cprog; exact T.
+  - pose proof (R_try_io x b f (if b then XFER_BUF else 1%N) H) as T. destruct (try_io x b f (if b then XFER_BUF else 1%N)) as [r x1]. cbn [snd] in T.
+    destruct r as [[c got]|]; exact T.
+Qed.
+Lemma R_comp_start k b f al x : R x -> R (comp_start k b f al x).
+Proof.
+  intros H. unfold comp_start. pose proof (R_xfer_step k b f al x H) as T. destruct (xfer_step k b f al x) as [[n d] x1]. cbn [snd] in T.
+  destruct d; [apply R_stp, R_set_comp; exact T|apply R_comp_wait; exact T].
+Qed.
+
 Lemma R_do_op o x : R x -> R (do_op o x).
 Proof.
-  intros H. destruct o; cbn [do_op]; cbv zeta.
+  intros H. destruct o; cbn [do_op]; cbv zeta; try (apply R_comp_start; exact H); try (apply R_comp_start, R_set_cprog; exact H).
   - apply R_stp. exact H.
   - apply R_stp. exact H.
   - apply R_stp. exact H.
@@ -150,6 +176,17 @@ Proof. intros H l. induction l as [|a r IH]; intros x Hx; cbn [fold_left]; [exac
 
 Lemma R_do_ops ops x : R x -> R (do_ops ops x).
 Proof. unfold do_ops. apply R_fold. intros y a Hy. apply R_do_op. exact Hy. Qed.
+
+Lemma R_complete k n x : R x -> R (complete k n x).
+Proof. intros H. unfold complete. apply R_do_ops, R_set_olog. exact H. Qed.
+Lemma R_after_exec h c x : R x -> R (after_exec h c x).
+Proof.
+  intros H. unfold after_exec. destruct (assoc (comp x) h) as [[[[k b] f] al]|]; [|apply R_complete; exact H].
+  destruct (assoc (cimm x) h); [apply R_complete; exact H|].
+  destruct c; try (apply R_complete; exact H).
+  pose proof (R_xfer_step k b f al x H) as T. destruct (xfer_step k b f al x) as [[n d] x1]. cbn [snd] in T.
+  destruct d; [apply R_complete; exact T|apply R_comp_wait; exact T].
+Qed.
 
 Lemma R_cancel_all x : R x -> R (cancel_all x).
 Proof. intros H. unfold cancel_all. apply R_fold; [|exact H]. intros y a Hy. apply R_stp. exact Hy. Qed.
@@ -195,7 +232,7 @@ Proof.
       * apply IH, R_stp. destruct (phases (stp LReset x)); [apply R_stp; exact H|apply R_do_ops, R_stp; exact H].
     + apply IH, R_stp. exact H.
   - apply IH, R_stp. destruct (running (ms x)) as [[h c|fd d h|fd]|]; try (apply R_stp; exact H).
-    apply R_do_ops, R_stp. exact H.
+    apply R_after_exec, R_stp. exact H.
   - apply IH, R_stp. exact H.
   - apply IH, R_poll_phase. exact H.
 Qed.
